@@ -715,4 +715,1071 @@ theorem isRel_of_tag {p p' : Packet} (h : (tagByte p').toNat = (tagByte p).toNat
 theorem isAck_of_tag {p p' : Packet} (h : (tagByte p').toNat = (tagByte p).toNat) : SI.isAckPkt p' = SI.isAckPkt p := by
   cases p <;> cases p' <;> first | rfl | (simp only [tagByte] at h; exact absurd h (by decide))
 
+/-! ## sender side: the channel agrees with the ghost submission log -/
+
+/-- (S1) reliable send channel `s` against the log `L` of accepted submissions: the next message id is the
+    length of the log, and every message still awaiting acknowledgement is the logged one -/
+structure ChanG (L : List Bytes) (s : SendRel) : Prop where
+  nid : s.nextId = L.length
+  gen : ∀ x ∈ s.unacked, L[x.1]? = some x.2.msg
+
+theorem chanG_new (ch resend maxMem : Nat) : ChanG [] (SendRel.new ch resend maxMem) :=
+  ⟨rfl, fun _ h => by cases h⟩
+
+theorem newSliced_msg (m : Bytes) : (Unacked.newSliced m).msg = m := rfl
+
+theorem chanG_send {L : List Bytes} {s s' : SendRel} {m : Bytes} (h : ChanG L s) (hs : s.sendMessage m = .ok s') :
+    ChanG (L ++ [m]) s' := by
+  unfold SendRel.sendMessage at hs
+  split at hs
+  · cases hs
+  · simp only [Except.ok.injEq] at hs
+    subst hs
+    refine ⟨by simp [h.nid], ?_⟩
+    intro x hx
+    dsimp only at hx
+    rcases SI.mem_insert hx with rfl | hx
+    · dsimp only
+      rw [h.nid, getElem?_append_singleton_self]
+      split <;> rfl
+    · exact getElem?_append_singleton_some m (h.gen x hx)
+
+theorem chanG_msgAck {L : List Bytes} {s s' : SendRel} {id : Nat} (h : ChanG L s) (hs : s.processMessageAck id = .ok s') :
+    ChanG L s' := by
+  unfold SendRel.processMessageAck at hs
+  split at hs
+  · cases hs; exact h
+  · rename_i m ls hf
+    cases hc : (Res.csub s.mem m.length "reliable.rs memory_usage_bytes -= payload.len() (message ack)" : Res Empty Nat) with
+    | ok v =>
+      rw [hc] at hs
+      simp only [Res.bind_ok, Res.pure_eq, Res.ok.injEq] at hs
+      subst hs
+      exact ⟨h.nid, fun x hx => h.gen x (SI.mem_erase hx)⟩
+    | err e => exact e.elim
+    | panic p => rw [hc] at hs; cases hs
+  · cases hs
+
+theorem chanG_sliceAck {L : List Bytes} {s s' : SendRel} {id idx : Nat} (h : ChanG L s)
+    (hs : s.processSliceAck id idx = .ok s') : ChanG L s' := by
+  unfold SendRel.processSliceAck at hs
+  split at hs
+  · cases hs; exact h
+  · cases hs
+  · rename_i m n numAcked next acked lastSent hf
+    split at hs
+    · cases hs
+    · cases hs; exact h
+    · dsimp only at hs
+      split at hs
+      · cases hc : (Res.csub s.mem m.length "reliable.rs memory_usage_bytes -= message.len() (slice ack)" : Res Empty Nat) with
+        | ok v =>
+          rw [hc] at hs
+          simp only [Res.bind_ok, Res.pure_eq, Res.ok.injEq] at hs
+          subst hs
+          exact ⟨h.nid, fun x hx => h.gen x (SI.mem_erase hx)⟩
+        | err e => exact e.elim
+        | panic p => rw [hc] at hs; cases hs
+      · simp only [Res.pure_eq, Res.ok.injEq] at hs
+        subst hs
+        refine ⟨h.nid, ?_⟩
+        intro x hx
+        rcases SI.mem_insert hx with rfl | hx
+        · exact h.gen (id, Unacked.sliced m n numAcked next acked lastSent) (SI.find?_some_mem hf)
+        · exact h.gen x hx
+
+theorem chanG_getPackets {L : List Bytes} {s : SendRel} (h : ChanG L s) (hi : s.Inv) (seq avail now : Nat) :
+    ChanG L (s.getPackets seq avail now).1 := by
+  obtain ⟨-, -, -, hn, hsim, -, -⟩ := SI.SendRel.getPackets_spec hi seq avail now _ _ _ _ rfl
+  refine ⟨hn.trans h.nid, ?_⟩
+  intro x' hx'
+  obtain ⟨x, hx, h1, h2⟩ := SI.MapSim.mem hsim x' hx'
+  rw [← h1, ← h2.kin.msg]
+  exact h.gen x hx
+
+/-- what a packet may carry on the reliable channels, relative to the submission logs -/
+def PktGen (sub : Nat → List Bytes) : Packet → Prop
+  | .smallReliable _ ch msgs => ∀ x ∈ msgs, DataPath.GenuineMsg (sub ch) x.1 x.2
+  | .reliableSlice _ ch sl => DataPath.GenuineSlice (sub ch) sl
+  | _ => True
+
+theorem prefix_getElem? {α : Type} {L L' : List α} (h : L <+: L') {i : Nat} {x : α} (hx : L[i]? = some x) :
+    L'[i]? = some x := by
+  obtain ⟨t, rfl⟩ := h
+  obtain ⟨hi, _⟩ := List.getElem?_eq_some_iff.mp hx
+  rw [List.getElem?_append_left hi]; exact hx
+
+theorem PktGen.mono {sub sub' : Nat → List Bytes} (h : ∀ ch, sub ch <+: sub' ch) : ∀ {p : Packet}, PktGen sub p → PktGen sub' p
+  | .smallReliable _ ch msgs, hp => fun x hx => prefix_getElem? (h ch) (hp x hx)
+  | .reliableSlice _ ch sl, hp => by
+    obtain ⟨m, h1, h2⟩ := hp
+    exact ⟨m, prefix_getElem? (h ch) h1, h2⟩
+  | .smallUnreliable .., _ => trivial
+  | .unreliableSlice .., _ => trivial
+  | .ack .., _ => trivial
+
+theorem push_prefix (f : Nat → List Bytes) (ch : Nat) (m : Bytes) : ∀ c, f c <+: push f ch m c := by
+  intro c
+  unfold push
+  split
+  · exact List.prefix_append _ _
+  · exact List.prefix_refl _
+
+/-- every packet of a reliable flush is genuine with respect to the log the channel agrees with -/
+theorem getPackets_pktGen {sub : Nat → List Bytes} {ch : Nat} {s : SendRel} (h : ChanG (sub ch) s) (hi : s.Inv)
+    (hc : s.ch = ch) (seq avail now : Nat) : ∀ p ∈ (s.getPackets seq avail now).2.1, PktGen sub p := by
+  intro p hp
+  have hg := SendRel.getPackets_genuine (s := s) (seq := seq) (avail := avail) (now := now) rfl p hp
+  cases p with
+  | smallReliable sq c msgs =>
+    obtain ⟨rfl, hm⟩ := hg
+    intro x hx
+    obtain ⟨ls, hmem⟩ := hm x hx
+    rw [hc]
+    exact h.gen _ hmem
+  | reliableSlice sq c sl =>
+    obtain ⟨rfl, m, na, nx, ak, ls, hmem, hidx, hpay⟩ := hg
+    have hok := hi.entries _ hmem
+    obtain ⟨o1, o2, -⟩ := hok
+    rw [hc]
+    exact ⟨m, h.gen _ hmem, o1, o2, hidx, hpay⟩
+  | smallUnreliable _ _ _ => trivial
+  | unreliableSlice _ _ _ => trivial
+  | ack _ _ => trivial
+
+/-- the `Flush` well-formedness of a channel from the `SendInv` invariant plus representable message lengths -/
+theorem wf_of_inv {s : SendRel} (hi : s.Inv) (hl : ∀ x ∈ s.unacked, x.2.msg.length ≤ Varint.MAX) : s.WF := by
+  refine ⟨?_, fun id u hm => hi.keys _ hm, ?_⟩
+  · have : s.unacked.Pairwise (fun a b => a.1 ≠ b.1) := hi.sorted.imp (fun h => Nat.ne_of_lt h)
+    simpa [SMap.keys, List.Nodup, List.pairwise_map] using this
+  · intro id u hm
+    have hok := hi.entries _ hm
+    cases u with
+    | small m ls => exact hok
+    | sliced m n k nx ak ls =>
+      obtain ⟨o1, o2, o3, o4, -, -⟩ := hok
+      exact ⟨o2, by omega, hl _ hm, o3, o4⟩
+
+theorem slices_le_of_len {m : Bytes} (h : m.length ≤ MAX_NUM_SLICES * SLICE_SIZE) : divCeil m.length SLICE_SIZE ≤ MAX_NUM_SLICES := by
+  unfold divCeil SLICE_SIZE MAX_NUM_SLICES at *
+  omega
+
+/-- static facts about channel `ch` and its log under which the reliable packets of a flush are well formed -/
+structure Stat (L : List Bytes) (ch : Nat) : Prop where
+  chan : ch < 256
+  ids : L.length ≤ Varint.MAX + 1
+  lens : ∀ m ∈ L, m.length ≤ MAX_NUM_SLICES * SLICE_SIZE
+
+theorem getPackets_pktWF {L : List Bytes} {ch : Nat} {s : SendRel} (h : ChanG L s) (hi : s.Inv) (hc : s.ch = ch)
+    (hst : Stat L ch) (seq avail now : Nat) (hseq : (s.getPackets seq avail now).2.2.1 ≤ Varint.MAX + 1) :
+    ∀ p ∈ (s.getPackets seq avail now).2.1, p.WF := by
+  have hlen : ∀ x ∈ s.unacked, x.2.msg.length ≤ MAX_NUM_SLICES * SLICE_SIZE := by
+    intro x hx
+    exact hst.lens _ (List.mem_of_getElem? (h.gen x hx))
+  refine SendRel.getPackets_wf (s := s) (seq := seq) (avail := avail) (now := now) rfl
+    (wf_of_inv hi (fun x hx => by have := hlen x hx; unfold MAX_NUM_SLICES SLICE_SIZE at this; unfold Varint.MAX; omega))
+    (by rw [hc]; exact hst.chan) (by rw [h.nid]; exact hst.ids) hseq ?_
+  intro id m n na nx ak ls hm
+  obtain ⟨-, o2, -⟩ := hi.entries _ hm
+  rw [o2]
+  exact slices_le_of_len (hlen _ hm)
+
+/-! ## receiver side: the per-channel invariants of Lemmas/DataPath, made monotone in the log -/
+
+open DataPath in
+/-- the ordered-channel invariant together with "nothing beyond the log has been consumed" (needed for the log to
+    be allowed to grow), resp. the unordered-channel invariant -/
+def ChanBS (L : List Bytes) (st : RunSt) : Prop :=
+  (st.r.ordered = true → OrdInv L st ∧ st.r.oldest ≤ L.length) ∧
+  (st.r.ordered = false → UnordInv L st)
+
+open DataPath in
+theorem slicesOK_mono {L : List Bytes} {r : RecvRel} (m : Bytes) (h : SlicesOK L r) : SlicesOK (L ++ [m]) r := by
+  refine ⟨h.1, ?_⟩
+  intro id c hc
+  obtain ⟨m', h1, h2⟩ := h.2 id c hc
+  exact ⟨m', getElem?_append_singleton_some m h1, h2⟩
+
+open DataPath in
+theorem ordInv_mono {L : List Bytes} {st : RunSt} (m : Bytes) (h : OrdInv L st) (hb : st.r.oldest ≤ L.length) :
+    OrdInv (L ++ [m]) st := by
+  refine ⟨h.ord, h.wfM, ?_, slicesOK_mono m h.slices, ?_⟩
+  · intro id x hx
+    obtain ⟨a, b⟩ := h.msgs id x hx
+    exact ⟨getElem?_append_singleton_some m a, b⟩
+  · rw [h.obt, List.take_append_of_le_length hb]
+
+open DataPath in
+theorem unordInv_mono {L : List Bytes} {st : RunSt} (m : Bytes) (h : UnordInv L st) : UnordInv (L ++ [m]) st := by
+  refine ⟨h.ord, h.wfM, ?_, slicesOK_mono m h.slices, ?_⟩
+  · intro id x hx
+    obtain ⟨a, b⟩ := h.msgs id x hx
+    exact ⟨getElem?_append_singleton_some m a, b⟩
+  · obtain ⟨ids, h1, h2, h3⟩ := h.obt
+    refine ⟨ids, h1, ?_, h3⟩
+    rw [h2]
+    apply List.map_congr_left
+    intro id hid
+    have : L[id]? ∈ st.obtained.map some := by rw [h2]; exact List.mem_map.mpr ⟨id, hid, rfl⟩
+    obtain ⟨x, -, hx⟩ := List.mem_map.mp this
+    rw [← hx]; exact (getElem?_append_singleton_some m hx.symm).symm
+
+theorem chanBS_mono {L : List Bytes} {st : DataPath.RunSt} (m : Bytes) (h : ChanBS L st) : ChanBS (L ++ [m]) st :=
+  ⟨fun ho => ⟨ordInv_mono m (h.1 ho).1 (h.1 ho).2, by have := (h.1 ho).2; simp; omega⟩,
+   fun ho => unordInv_mono m (h.2 ho)⟩
+
+open DataPath in
+/-- the ordered cursor never runs past the log -/
+theorem oldest_step {L : List Bytes} {st : RunSt} {op : RecvOp} (h : OrdInv L st) (hb : st.r.oldest ≤ L.length)
+    (g : Genuine L op) : (step st op).r.oldest ≤ L.length := by
+  unfold step
+  split
+  · exact hb
+  · cases op with
+    | msg id m =>
+      dsimp only
+      split
+      · rename_i r' hp
+        dsimp only
+        rw [(processMessage_ok hp).1.1]; exact hb
+      · exact hb
+      · exact hb
+    | slice sl =>
+      dsimp only
+      split
+      · rename_i r' hp
+        obtain ⟨-, m, -, hacc⟩ := processSlice_ok h.slices g hp
+        dsimp only
+        rw [hacc.1]; exact hb
+      · exact hb
+      · exact hb
+    | recv =>
+      dsimp only
+      split
+      · rename_i r' m hp
+        dsimp only
+        unfold RecvRel.receive at hp
+        rw [if_pos h.ord] at hp
+        split at hp
+        · cases hp
+        · rename_i x hf
+          have hlt : st.r.oldest < L.length := by
+            obtain ⟨hi, _⟩ := List.getElem?_eq_some_iff.mp (h.msgs _ _ hf).1
+            exact hi
+          cases hc : (Res.csub st.r.mem x.length "reliable.rs memory_usage_bytes -= message.len() (receive ordered)" : Res Empty Nat) with
+          | ok v =>
+            rw [hc] at hp
+            simp only [Res.bind_ok, Res.pure_eq, Res.ok.injEq, Prod.mk.injEq] at hp
+            obtain ⟨rfl, -⟩ := hp
+            exact hlt
+          | err e => exact e.elim
+          | panic p => rw [hc] at hp; cases hp
+      · rename_i r' hp
+        dsimp only
+        unfold RecvRel.receive at hp
+        rw [if_pos h.ord] at hp
+        split at hp
+        · cases hp; exact hb
+        · rename_i x hf
+          cases hc : (Res.csub st.r.mem x.length "reliable.rs memory_usage_bytes -= message.len() (receive ordered)" : Res Empty Nat) with
+          | ok v =>
+            rw [hc] at hp
+            simp only [Res.bind_ok, Res.pure_eq, Res.ok.injEq, Prod.mk.injEq] at hp
+            exact absurd hp.2 (by simp)
+          | err e => exact e.elim
+          | panic p => rw [hc] at hp; cases hp
+      · exact hb
+      · exact hb
+
+open DataPath in
+theorem chanBS_step (L : List Bytes) (st : RunSt) (op : RecvOp) (h : ChanBS L st) (g : Genuine L op) :
+    ChanBS L (step st op) := by
+  cases ho : st.r.ordered with
+  | true =>
+    obtain ⟨h1, h2⟩ := h.1 ho
+    have h3 := ord_step L st op h1 g
+    exact ⟨fun _ => ⟨h3, oldest_step h1 h2 g⟩, fun hf => (by rw [h3.ord] at hf; cases hf)⟩
+  | false =>
+    have h3 := unord_step L st op (h.2 ho) g
+    exact ⟨fun hf => (by rw [h3.ord] at hf; cases hf), fun _ => h3⟩
+
+open DataPath in
+theorem chanBS_foldl (L : List Bytes) (ops : List RecvOp) (st : RunSt) (h : ChanBS L st) (g : ∀ op ∈ ops, Genuine L op) :
+    ChanBS L (ops.foldl step st) :=
+  foldl_inv step (ChanBS L) (Genuine L) (chanBS_step L) ops st h g
+
+open DataPath in
+/-- the `ordered` flag is part of both invariants, so an invariant-preserving transition cannot flip it:
+    stated for the three transitions the system performs -/
+theorem step_ordered (L : List Bytes) (st : RunSt) (op : RecvOp) (h : ChanBS L st) (g : Genuine L op) :
+    (step st op).r.ordered = st.r.ordered := by
+  cases ho : st.r.ordered with
+  | true => exact (ord_step L st op (h.1 ho).1 g).ord
+  | false => exact (unord_step L st op (h.2 ho) g).ord
+
+open DataPath in
+theorem foldl_ordered (L : List Bytes) : ∀ (ops : List RecvOp) (st : RunSt), ChanBS L st → (∀ op ∈ ops, Genuine L op) →
+    (ops.foldl step st).r.ordered = st.r.ordered
+  | [], _, _, _ => rfl
+  | op :: ops, st, h, g => by
+    rw [List.foldl_cons, foldl_ordered L ops (step st op) (chanBS_step L st op h (g op (by simp)))
+      (fun o ho => g o (List.mem_cons_of_mem _ ho))]
+    exact step_ordered L st op h (g op (by simp))
+
+/-! ## one flush, at connection level -/
+
+/-- the packets whose encodings the next `get_packets_to_send` hands to the transport (none when the connection is
+    disconnected or serialisation fails) -/
+def flushPk (c : Conn) : List Packet :=
+  if c.isDisconnected then [] else
+  match Conn.chanLoop c.now c.order (c.sendRel, c.sendUnrel, [], c.packetSeq, c.budget) with
+  | .ok (_, _, pk0, seq0, _) =>
+    match Conn.serialiseAll (if c.pendingAcks.isEmpty then pk0 else pk0 ++ [Packet.ack seq0 c.pendingAcks]) with
+    | .ok _ => if c.pendingAcks.isEmpty then pk0 else pk0 ++ [Packet.ack seq0 c.pendingAcks]
+    | _ => []
+  | _ => []
+
+theorem relMapFit_of_inv {c : Conn} (h : c.SendInv) : RelMapFit c.sendRel := by
+  intro ch s hs id m n na nx ak ls hm
+  obtain ⟨-, o2, -⟩ := (h.chans ch s hs).1.entries _ hm
+  rw [o2]; exact divCeil_mul_ge _
+
+theorem mem_flushPk_cases {pk0 : List Packet} {l : List AckRange} {seq0 : Nat} {p : Packet}
+    (hp : p ∈ (if l.isEmpty then pk0 else pk0 ++ [Packet.ack seq0 l])) : p ∈ pk0 ∨ p = Packet.ack seq0 l := by
+  split at hp
+  · exact Or.inl hp
+  · rw [List.mem_append, List.mem_singleton] at hp; exact hp
+
+/-- bytes, numbering and frame of one flush -/
+theorem flush_facts {c c' : Conn} {bs : List Bytes} (hinv : c.SendInv) (h : c.getPacketsToSend = .ok (c', bs)) :
+    (flushPk c).map encO = bs.map some ∧
+    ((flushPk c).map Packet.sequence).Pairwise (· < ·) ∧
+    (∀ p ∈ flushPk c, c.packetSeq ≤ p.sequence ∧ p.sequence < c'.packetSeq) ∧
+    c.packetSeq ≤ c'.packetSeq ∧ c'.recvRel = c.recvRel ∧ c'.pendingAcks = c.pendingAcks ∧
+    (c'.isDisconnected = false → c.isDisconnected = false) := by
+  rcases getPacketsToSend_unfold h with ⟨hd, hc', hbs⟩ | ⟨hd, sr, su, pk0, seq0, avail, sent, hl, hrec, hser⟩
+  · have : flushPk c = [] := by unfold flushPk; rw [if_pos hd]
+    rw [this, hc', hbs]
+    exact ⟨rfl, List.Pairwise.nil, fun _ hp => (by cases hp), Nat.le_refl _, rfl, rfl, fun h => h⟩
+  · obtain ⟨ps, hps, -, hseq, hrange, -⟩ := chanLoop_budget _ _ _ _ _ _ _ _ _ _ _ _ (relMapFit_of_inv hinv) hl
+    simp only [List.nil_append] at hps
+    subst hps
+    have hseqs : ∀ p ∈ pk0, c.packetSeq ≤ p.sequence ∧ p.sequence < seq0 := by
+      intro p hp
+      have : p.sequence ∈ pk0.map Packet.sequence := List.mem_map.mpr ⟨p, hp, rfl⟩
+      rw [hrange, List.mem_range'_1] at this
+      omega
+    have hall : ∀ p ∈ (if c.pendingAcks.isEmpty then pk0 else pk0 ++ [Packet.ack seq0 c.pendingAcks]),
+        c.packetSeq ≤ p.sequence ∧ p.sequence < (if c.pendingAcks.isEmpty then seq0 else seq0 + 1) := by
+      intro p hp
+      split at hp
+      · rename_i he; rw [if_pos he]; exact hseqs p hp
+      · rename_i he
+        rw [if_neg he]
+        rw [List.mem_append, List.mem_singleton] at hp
+        rcases hp with hp | rfl
+        · have := hseqs p hp; omega
+        · simp only [Packet.sequence]; omega
+    have hpw : ((if c.pendingAcks.isEmpty then pk0 else pk0 ++ [Packet.ack seq0 c.pendingAcks]).map Packet.sequence).Pairwise (· < ·) := by
+      split
+      · rw [hrange]; exact List.pairwise_lt_range' _
+      · rw [List.map_append, List.pairwise_append]
+        refine ⟨by rw [hrange]; exact List.pairwise_lt_range' _, by simp, ?_⟩
+        intro a ha b hb
+        rw [hrange, List.mem_range'_1] at ha
+        simp only [List.map_cons, List.map_nil, List.mem_singleton] at hb
+        rw [hb]
+        show a < seq0
+        omega
+    have hmono : c.packetSeq ≤ (if c.pendingAcks.isEmpty then seq0 else seq0 + 1) := by split <;> omega
+    rcases hser with ⟨hok, rfl⟩ | ⟨e, herr, rfl, rfl⟩
+    · have hf : flushPk c = (if c.pendingAcks.isEmpty then pk0 else pk0 ++ [Packet.ack seq0 c.pendingAcks]) := by
+        unfold flushPk; rw [hd]; simp only [Bool.false_eq_true, ↓reduceIte, hl, hok]
+      rw [hf]
+      exact ⟨serialiseAll_enc _ _ hok, hpw, hall, hmono, rfl, rfl, fun _ => hd⟩
+    · have hf : flushPk c = [] := by
+        unfold flushPk; rw [hd]; simp only [Bool.false_eq_true, ↓reduceIte, hl, herr]
+      rw [hf]
+      obtain ⟨hs, hp, hr, -⟩ := Conn.disconnectWith_same
+        ({ c with sendRel := sr, sendUnrel := su, packetSeq := (if c.pendingAcks.isEmpty then seq0 else seq0 + 1), sent := sent } : Conn)
+        (.packetSer e)
+      refine ⟨rfl, List.Pairwise.nil, fun _ hp => (by cases hp), ?_, hr, hp, ?_⟩
+      · rw [hs.2.2.2.1]; exact hmono
+      · intro hcon
+        rw [disconnectWith_isDisconnected] at hcon; cases hcon
+
+/-- per-channel properties and per-packet properties through one flush -/
+theorem flush_pres (P : Nat → SendRel → Prop) (Q : Packet → Prop) (B : Nat) {c c' : Conn} {bs : List Bytes}
+    (hrel : ∀ ch s seq avail, P ch s → (s.getPackets seq avail c.now).2.2.1 ≤ B →
+      P ch (s.getPackets seq avail c.now).1 ∧ ∀ p ∈ (s.getPackets seq avail c.now).2.1, Q p)
+    (hunrel : ∀ (s : SendUnrel) seq avail, ∀ p ∈ (s.getPackets seq avail).2.1, Q p)
+    (hack : ∀ seq l, Q (Packet.ack seq l))
+    (h : c.getPacketsToSend = .ok (c', bs)) (hb : c'.packetSeq ≤ B)
+    (hc : ∀ ch s, SMap.find? c.sendRel ch = some s → P ch s) :
+    (∀ ch s, SMap.find? c'.sendRel ch = some s → P ch s) ∧ ∀ p ∈ flushPk c, Q p := by
+  rcases getPacketsToSend_unfold h with ⟨hd, hc', hbs⟩ | ⟨hd, sr, su, pk0, seq0, avail, sent, hl, hrec, hser⟩
+  · have : flushPk c = [] := by unfold flushPk; rw [if_pos hd]
+    rw [this, hc']
+    exact ⟨hc, fun _ hp => (by cases hp)⟩
+  · have hseq0 : seq0 ≤ B := by
+      rcases hser with ⟨-, rfl⟩ | ⟨e, -, -, rfl⟩
+      · dsimp only at hb; split at hb <;> omega
+      · rw [(Conn.disconnectWith_same _ _).1.2.2.2.1] at hb
+        dsimp only at hb; split at hb <;> omega
+    obtain ⟨h1, h2⟩ := chanLoop_pres P Q B c.now hrel hunrel _ _ _ _ _ _ _ _ _ _ _ hl hseq0 hc (fun _ hp => by cases hp)
+    have hq : ∀ p ∈ (if c.pendingAcks.isEmpty then pk0 else pk0 ++ [Packet.ack seq0 c.pendingAcks]), Q p := by
+      intro p hp
+      rcases mem_flushPk_cases hp with hp | rfl
+      · exact h2 p hp
+      · exact hack _ _
+    rcases hser with ⟨hok, rfl⟩ | ⟨e, herr, rfl, rfl⟩
+    · have hf : flushPk c = (if c.pendingAcks.isEmpty then pk0 else pk0 ++ [Packet.ack seq0 c.pendingAcks]) := by
+        unfold flushPk; rw [hd]; simp only [Bool.false_eq_true, ↓reduceIte, hl, hok]
+      rw [hf]
+      exact ⟨h1, hq⟩
+    · have hf : flushPk c = [] := by
+        unfold flushPk; rw [hd]; simp only [Bool.false_eq_true, ↓reduceIte, hl, herr]
+      rw [hf, (Conn.disconnectWith_same _ _).1.1]
+      exact ⟨h1, fun _ hp => by cases hp⟩
+
+/-! ## system invariants, layer 1 (unconditional): sender bookkeeping and the packets on the wire -/
+
+theorem unrel_not_rel (s : SendUnrel) (seq avail : Nat) : ∀ p ∈ (s.getPackets seq avail).2.1, isRel p = false := by
+  intro p hp
+  have := (SendUnrel.getPackets_emitted (s := s) (seq := seq) (avail := avail) rfl).2 p hp
+  cases p with
+  | smallReliable _ _ _ => exact this.elim
+  | reliableSlice _ _ _ => exact this.elim
+  | smallUnreliable _ _ _ => rfl
+  | unreliableSlice _ _ _ => rfl
+  | ack _ _ => rfl
+
+theorem pktGen_of_not_rel {sub : Nat → List Bytes} {p : Packet} (h : isRel p = false) : PktGen sub p := by
+  cases p with
+  | smallReliable _ _ _ => cases h
+  | reliableSlice _ _ _ => cases h
+  | smallUnreliable _ _ _ => trivial
+  | unreliableSlice _ _ _ => trivial
+  | ack _ _ => trivial
+
+theorem sendMessage_packetSeq {c c' : Conn} {ch : Nat} {m : Bytes} (h : c.sendMessage ch m = .ok c') :
+    c'.packetSeq = c.packetSeq := by
+  unfold Conn.sendMessage at h
+  split at h
+  · cases h; rfl
+  · split at h
+    · split at h
+      · cases h; rfl
+      · cases h; exact (c.disconnectWith_same _).1.2.2.2.1
+    · split at h
+      · cases h; rfl
+      · cases h
+
+theorem processPacket_packetSeq {c c' : Conn} {bytes : Bytes} (hinv : c.SendInv) (h : c.processPacket bytes = .ok c') :
+    c'.packetSeq = c.packetSeq := by
+  rcases SI.Conn.processPacket_cases h with ⟨hs1, -, -⟩ | ⟨p, -, -, hs1, -⟩ | ⟨aseq, ranges, L, hd, hp, -, -⟩
+  · exact hs1.2.2.2.1
+  · exact hs1.2.2.2.1
+  · obtain ⟨L', c2, -, e, -, eff, -, -⟩ := SI.Conn.processPacket_ack_spec hinv hd hp
+    rw [e] at h; cases h
+    exact eff.frame.2.2.2.2.2.1
+
+/-- the packet list that mirrors `outA` after one more operation -/
+def nextPk (s : Sys) (op : SysOp) (pkA : List Packet) : List Packet :=
+  match op with
+  | .flushA => pkA ++ flushPk s.a
+  | _ => pkA
+
+structure Inv1 (cfg : Cfg) (s : Sys) (pkA : List Packet) : Prop where
+  reachA : C08.Reach cfg.budget cfg.send cfg.recv s.a
+  reachB : C08.Reach cfg.budget cfg.recv cfg.send s.b
+  /-- (S1) -/
+  chanA : ∀ ch sA, SMap.find? s.a.sendRel ch = some sA → ChanG (s.submitted ch) sA ∧ ∃ c ∈ cfg.send, c.id = ch
+  /-- `outA` is, datagram for datagram, the encoding of the ghost packet list `pkA` -/
+  encA : pkA.map encO = s.outA.map some
+  /-- A's packets carry strictly increasing sequence numbers below `packet_sequence` -/
+  seqA : (pkA.map Packet.sequence).Pairwise (· < ·) ∧ ∀ p ∈ pkA, p.sequence < s.a.packetSeq
+  /-- (S2, packet level) every reliable entry of every emitted packet is genuine -/
+  genA : ∀ p ∈ pkA, PktGen s.submitted p
+  delivB : ∀ k ∈ s.deliveredToB, k < s.outA.length
+
+theorem Inv1.invA {cfg : Cfg} {s : Sys} {pkA : List Packet} (h : Inv1 cfg s pkA) : s.a.SendInv ∧ Acks.WF s.a.pendingAcks :=
+  C08.reach_inv h.reachA
+
+theorem Inv1.invB {cfg : Cfg} {s : Sys} {pkA : List Packet} (h : Inv1 cfg s pkA) : s.b.SendInv ∧ Acks.WF s.b.pendingAcks :=
+  C08.reach_inv h.reachB
+
+theorem inv1_init (cfg : Cfg) : Inv1 cfg (Sys.init cfg) [] := by
+  refine ⟨.init, .init, ?_, rfl, ⟨List.Pairwise.nil, fun _ h => (by cases h)⟩, fun _ h => (by cases h), fun _ h => (by cases h)⟩
+  intro ch sA hf
+  simp only [Sys.init, Conn.fromChannels] at hf
+  rcases SI.foldl_insert_find (fun c : ChanCfg => c.id) (fun c => SendRel.new c.id c.resend c.maxMem) _ _ ch sA hf with h | ⟨c, hc, h1, h2⟩
+  · cases h
+  · subst h2
+    exact ⟨chanG_new _ _ _, c, (List.mem_filter.mp hc).1, h1⟩
+
+/-- the per-channel property layer 1 threads through the flush -/
+def P1 (cfg : Cfg) (sub : Nat → List Bytes) (ch : Nat) (s : SendRel) : Prop :=
+  (ChanG (sub ch) s ∧ ∃ c ∈ cfg.send, c.id = ch) ∧ s.Inv ∧ s.ch = ch
+
+theorem p1_getPackets (cfg : Cfg) (sub : Nat → List Bytes) (now : Nat) (ch : Nat) (s : SendRel) (seq avail : Nat)
+    (h : P1 cfg sub ch s) :
+    P1 cfg sub ch (s.getPackets seq avail now).1 ∧ ∀ p ∈ (s.getPackets seq avail now).2.1, PktGen sub p := by
+  obtain ⟨⟨hg, hcfg⟩, hi, hc⟩ := h
+  obtain ⟨i', st, -⟩ := SI.SendRel.getPackets_spec hi seq avail now _ _ _ _ rfl
+  exact ⟨⟨⟨chanG_getPackets hg hi seq avail now, hcfg⟩, i', st.1.trans hc⟩, getPackets_pktGen hg hi hc seq avail now⟩
+
+theorem inv1_step {cfg : Cfg} {s s' : Sys} {pkA : List Packet} {op : SysOp} (h : Inv1 cfg s pkA)
+    (hs : s.step op = some s') : Inv1 cfg s' (nextPk s op pkA) := by
+  cases op with
+  | sendA ch m =>
+    simp only [Sys.step] at hs
+    split at hs
+    · rename_i a' hm
+      simp only [Option.some.injEq] at hs
+      subst hs
+      have hseq := sendMessage_packetSeq hm
+      rcases sendMessage_cases hm with ⟨hacc, s0, s1, hf, hsend, rfl⟩ | ⟨hacc, hsr⟩
+      · refine ⟨.sendMessage h.reachA hm, h.reachB, ?_, h.encA, h.seqA, ?_, h.delivB⟩
+        · intro ch2 sA hf2
+          dsimp only at hf2 ⊢
+          rw [hacc]
+          simp only [↓reduceIte]
+          rw [SMap.find?_insert] at hf2
+          split at hf2
+          · rename_i e
+            subst e
+            cases hf2
+            rw [push_same]
+            exact ⟨chanG_send (h.chanA ch s0 hf).1 hsend, (h.chanA ch s0 hf).2⟩
+          · rename_i e
+            rw [push_other _ _ (fun e' => e e'.symm)]
+            exact h.chanA ch2 sA hf2
+        · intro p hp
+          dsimp only
+          rw [hacc]
+          simp only [↓reduceIte]
+          exact (h.genA p hp).mono (push_prefix _ _ _)
+      · refine ⟨.sendMessage h.reachA hm, h.reachB, ?_, h.encA, ⟨h.seqA.1, by dsimp only; rw [hseq]; exact h.seqA.2⟩, ?_, h.delivB⟩
+        · dsimp only
+          rw [hacc, hsr]
+          exact h.chanA
+        · dsimp only
+          rw [hacc]
+          exact h.genA
+    · cases hs
+  | recvB ch =>
+    simp only [Sys.step] at hs
+    split at hs
+    · rename_i b' m hm
+      cases hs
+      exact ⟨h.reachA, .receiveMessage h.reachB hm, h.chanA, h.encA, h.seqA, h.genA, h.delivB⟩
+    · rename_i b' hm
+      cases hs
+      exact ⟨h.reachA, .receiveMessage h.reachB hm, h.chanA, h.encA, h.seqA, h.genA, h.delivB⟩
+    · cases hs
+  | updA dt =>
+    simp only [Sys.step] at hs
+    split at hs
+    · rename_i a' hm
+      cases hs
+      obtain ⟨e1, -, e3, -⟩ := SI.Conn.update_spec hm
+      refine ⟨.update h.reachA hm, h.reachB, by dsimp only; rw [e1]; exact h.chanA, h.encA,
+        ⟨h.seqA.1, by dsimp only; rw [e3]; exact h.seqA.2⟩, h.genA, h.delivB⟩
+    · cases hs
+  | updB dt =>
+    simp only [Sys.step] at hs
+    split at hs
+    · rename_i b' hm
+      cases hs
+      exact ⟨h.reachA, .update h.reachB hm, h.chanA, h.encA, h.seqA, h.genA, h.delivB⟩
+    · cases hs
+  | flushA =>
+    simp only [Sys.step] at hs
+    split at hs
+    · rename_i a' bs hm
+      cases hs
+      obtain ⟨f1, f2, f3, f4, -⟩ := flush_facts h.invA.1 hm
+      obtain ⟨g1, g2⟩ := flush_pres (P1 cfg s.submitted) (PktGen s.submitted) a'.packetSeq
+        (fun ch sA seq avail hp _ => p1_getPackets cfg s.submitted s.a.now ch sA seq avail hp)
+        (fun sU seq avail p hp => pktGen_of_not_rel (unrel_not_rel sU seq avail p hp))
+        (fun _ _ => trivial) hm (Nat.le_refl _)
+        (fun ch sA hf => ⟨h.chanA ch sA hf, h.invA.1.chans ch sA hf⟩)
+      refine ⟨.flush h.reachA hm, h.reachB, fun ch sA hf => (g1 ch sA hf).1, ?_, ⟨?_, ?_⟩, ?_, ?_⟩
+      · simp only [nextPk, List.map_append, h.encA, f1]
+      · simp only [nextPk, List.map_append, List.pairwise_append]
+        refine ⟨h.seqA.1, f2, ?_⟩
+        intro x hx y hy
+        obtain ⟨p, hp, rfl⟩ := List.mem_map.mp hx
+        obtain ⟨q, hq, rfl⟩ := List.mem_map.mp hy
+        have := h.seqA.2 p hp
+        have := (f3 q hq).1
+        omega
+      · intro p hp
+        simp only [nextPk, List.mem_append] at hp
+        rcases hp with hp | hp
+        · have := h.seqA.2 p hp
+          dsimp only; omega
+        · exact (f3 p hp).2
+      · intro p hp
+        simp only [nextPk, List.mem_append] at hp
+        rcases hp with hp | hp
+        · exact h.genA p hp
+        · exact g2 p hp
+      · intro k hk
+        have := h.delivB k hk
+        simp only [List.length_append]; omega
+    · cases hs
+  | flushB =>
+    simp only [Sys.step] at hs
+    split at hs
+    · rename_i b' bs hm
+      cases hs
+      exact ⟨h.reachA, .flush h.reachB hm, h.chanA, h.encA, h.seqA, h.genA, h.delivB⟩
+    · cases hs
+  | deliverToB k =>
+    simp only [Sys.step] at hs
+    split at hs
+    · cases hs
+    · rename_i bytes hb
+      split at hs
+      · rename_i b' hm
+        cases hs
+        refine ⟨h.reachA, .packet h.reachB hm, h.chanA, h.encA, h.seqA, h.genA, ?_⟩
+        intro k' hk'
+        simp only [List.mem_append, List.mem_singleton] at hk'
+        rcases hk' with hk' | rfl
+        · exact h.delivB k' hk'
+        · exact (List.getElem?_eq_some_iff.mp hb).1
+      · cases hs
+  | deliverToA k =>
+    simp only [Sys.step] at hs
+    split at hs
+    · cases hs
+    · rename_i bytes hb
+      split at hs
+      · rename_i a' hm
+        cases hs
+        have hps := processPacket_packetSeq h.invA.1 hm
+        refine ⟨.packet h.reachA hm, h.reachB, ?_, h.encA, ⟨h.seqA.1, by dsimp only; rw [hps]; exact h.seqA.2⟩, h.genA, h.delivB⟩
+        exact processPacket_pres (fun ch sA => ChanG (s.submitted ch) sA ∧ ∃ c ∈ cfg.send, c.id = ch)
+          (fun ch sA id sA' hp hh => ⟨chanG_msgAck hp.1 hh, hp.2⟩)
+          (fun ch sA id idx sA' hp hh => ⟨chanG_sliceAck hp.1 hh, hp.2⟩) hm h.chanA
+      · cases hs
+
+/-! ## the counter-range hypothesis, and its monotonicity along a run -/
+
+/-- Everything the wire format has to carry is in range: channel ids are bytes (they are `u8` in the Rust code),
+    A's packet sequence counter and message-id counters have not passed 2^62 (the varint limit, where the Rust
+    encoder hits `unreachable!`), and no submitted message needs more than `MAX_NUM_SLICES` slices (1.2 GB; the
+    receiver rejects larger slice counts).  All four only ever get harder to satisfy as a run proceeds, so they are
+    stated for the state at hand and hold for every earlier state of the run (`counters_step`). -/
+structure CountersOK (cfg : Cfg) (s : Sys) : Prop where
+  chan : ∀ c ∈ cfg.send, c.id < 256
+  seq : s.a.packetSeq ≤ Varint.MAX + 1
+  ids : ∀ ch, (s.submitted ch).length ≤ Varint.MAX + 1
+  lens : ∀ ch, ∀ m ∈ s.submitted ch, m.length ≤ MAX_NUM_SLICES * SLICE_SIZE
+
+theorem step_mono {cfg : Cfg} {s s' : Sys} {pkA : List Packet} {op : SysOp} (h : Inv1 cfg s pkA)
+    (hs : s.step op = some s') :
+    s.a.packetSeq ≤ s'.a.packetSeq ∧ (∀ ch, s.submitted ch <+: s'.submitted ch) ∧ s.outA <+: s'.outA := by
+  cases op with
+  | sendA ch m =>
+    simp only [Sys.step] at hs
+    split at hs
+    · rename_i a' hm
+      cases hs
+      refine ⟨by rw [sendMessage_packetSeq hm]; exact Nat.le_refl _, ?_, List.prefix_refl _⟩
+      intro c
+      dsimp only
+      split
+      · exact push_prefix _ _ _ c
+      · exact List.prefix_refl _
+    · cases hs
+  | recvB ch =>
+    simp only [Sys.step] at hs
+    split at hs
+    · cases hs; exact ⟨Nat.le_refl _, fun _ => List.prefix_refl _, List.prefix_refl _⟩
+    · cases hs; exact ⟨Nat.le_refl _, fun _ => List.prefix_refl _, List.prefix_refl _⟩
+    · cases hs
+  | updA dt =>
+    simp only [Sys.step] at hs
+    split at hs
+    · rename_i a' hm
+      cases hs
+      exact ⟨by rw [(SI.Conn.update_spec hm).2.2.1]; exact Nat.le_refl _, fun _ => List.prefix_refl _, List.prefix_refl _⟩
+    · cases hs
+  | updB dt =>
+    simp only [Sys.step] at hs
+    split at hs
+    · cases hs; exact ⟨Nat.le_refl _, fun _ => List.prefix_refl _, List.prefix_refl _⟩
+    · cases hs
+  | flushA =>
+    simp only [Sys.step] at hs
+    split at hs
+    · rename_i a' bs hm
+      cases hs
+      exact ⟨(flush_facts h.invA.1 hm).2.2.2.1, fun _ => List.prefix_refl _, List.prefix_append _ _⟩
+    · cases hs
+  | flushB =>
+    simp only [Sys.step] at hs
+    split at hs
+    · cases hs; exact ⟨Nat.le_refl _, fun _ => List.prefix_refl _, List.prefix_refl _⟩
+    · cases hs
+  | deliverToB k =>
+    simp only [Sys.step] at hs
+    split at hs
+    · cases hs
+    · split at hs
+      · cases hs; exact ⟨Nat.le_refl _, fun _ => List.prefix_refl _, List.prefix_refl _⟩
+      · cases hs
+  | deliverToA k =>
+    simp only [Sys.step] at hs
+    split at hs
+    · cases hs
+    · split at hs
+      · rename_i a' hm
+        cases hs
+        exact ⟨by rw [processPacket_packetSeq h.invA.1 hm]; exact Nat.le_refl _, fun _ => List.prefix_refl _, List.prefix_refl _⟩
+      · cases hs
+
+theorem counters_step {cfg : Cfg} {s s' : Sys} {pkA : List Packet} {op : SysOp} (h : Inv1 cfg s pkA)
+    (hs : s.step op = some s') (hc : CountersOK cfg s') : CountersOK cfg s := by
+  obtain ⟨m1, m2, -⟩ := step_mono h hs
+  refine ⟨hc.chan, Nat.le_trans m1 hc.seq, fun ch => Nat.le_trans (m2 ch).length_le (hc.ids ch), ?_⟩
+  intro ch m hm
+  exact hc.lens ch m ((m2 ch).subset hm)
+
+/-! ## system invariants, layer 2 (under `CountersOK`): the wire round trip and the receiver -/
+
+/-- reliability kind of B's receive channel `ch`, read off the initial state: `some true` = ordered,
+    `some false` = unordered, `none` = not a reliable channel -/
+def RelKind (cfg : Cfg) (ch : Nat) : Option Bool := (SMap.find? (Sys.init cfg).b.recvRel ch).map (·.ordered)
+
+/-- the end-to-end statement about one channel: what B's application obtained, against what A's submitted -/
+def Concl : Option Bool → List Bytes → List Bytes → Prop
+  | some true, L, o => o <+: L
+  | some false, L, o => ∃ ids : List Nat, ids.Nodup ∧ o.map some = ids.map (fun id => L[id]?)
+  | none, _, _ => True
+
+theorem concl_mono {k : Option Bool} {L o : List Bytes} (m : Bytes) (h : Concl k L o) : Concl k (L ++ [m]) o := by
+  cases k with
+  | none => trivial
+  | some b =>
+    cases b with
+    | true => exact List.IsPrefix.trans h (List.prefix_append _ _)
+    | false =>
+      obtain ⟨ids, h1, h2⟩ := h
+      refine ⟨ids, h1, ?_⟩
+      rw [h2]
+      apply List.map_congr_left
+      intro id hid
+      have : L[id]? ∈ o.map some := by rw [h2]; exact List.mem_map.mpr ⟨id, hid, rfl⟩
+      obtain ⟨x, -, hx⟩ := List.mem_map.mp this
+      rw [← hx]; exact (getElem?_append_singleton_some m hx.symm).symm
+
+theorem concl_of_chanBS {L o : List Bytes} {r : RecvRel} (h : ChanBS L ⟨r, o, false⟩) : Concl (some r.ordered) L o := by
+  cases ho : r.ordered with
+  | true =>
+    have := (h.1 ho).1.obt
+    dsimp only at this
+    show o <+: L
+    rw [this]; exact List.take_prefix _ _
+  | false =>
+    obtain ⟨ids, h1, h2, -⟩ := (h.2 ho).obt
+    exact ⟨ids, h1, h2⟩
+
+structure Inv2 (cfg : Cfg) (s : Sys) (pkA : List Packet) : Prop where
+  /-- the reliable packets A emitted are well formed, so B decodes exactly them -/
+  wfA : ∀ p ∈ pkA, isRel p = true → p.WF
+  /-- (S3) while B is live, each of its reliable receive channels satisfies the DataPath invariant for the
+      log of the same channel id, with `obtained` as the ghost output -/
+  recvB : s.b.isDisconnected = false →
+    (∀ ch, (SMap.find? s.b.recvRel ch).map (·.ordered) = RelKind cfg ch) ∧
+    ∀ ch r, SMap.find? s.b.recvRel ch = some r → ChanBS (s.submitted ch) ⟨r, s.obtained ch, false⟩
+  concl : ∀ ch, Concl (RelKind cfg ch) (s.submitted ch) (s.obtained ch)
+
+theorem inv2_init (cfg : Cfg) : Inv2 cfg (Sys.init cfg) [] := by
+  have hch : ∀ ch r, SMap.find? (Sys.init cfg).b.recvRel ch = some r → ChanBS [] ⟨r, [], false⟩ := by
+    intro ch r hf
+    simp only [Sys.init, Conn.fromChannels] at hf
+    rcases SI.foldl_insert_find (fun c : ChanCfg => c.id) (fun c => RecvRel.new c.maxMem (c.kind == .ordered)) _ _ ch r hf with h | ⟨c, -, -, h2⟩
+    · cases h
+    · subst h2
+      cases hk : (c.kind == Kind.ordered) with
+      | true => exact ⟨fun _ => ⟨DataPath.ord_init [] c.maxMem, Nat.le_refl _⟩, fun hf => (by cases hf)⟩
+      | false => exact ⟨fun hf => (by cases hf), fun _ => DataPath.unord_init [] c.maxMem⟩
+  refine ⟨fun _ h => (by cases h), fun _ => ⟨fun _ => rfl, hch⟩, ?_⟩
+  intro ch
+  unfold RelKind
+  cases hf : SMap.find? (Sys.init cfg).b.recvRel ch with
+  | none => trivial
+  | some r => exact concl_of_chanBS (hch ch r hf)
+
+theorem update_recv {c c' : Conn} {dt : Nat} (h : c.update dt = .ok c') : c'.recvRel = c.recvRel ∧ c'.status = c.status := by
+  unfold Conn.update at h
+  dsimp only at h
+  cases hd : Conn.discardAll (c.now + dt) c.recvUnrel with
+  | ok ru => rw [hd] at h; simp only [Res.bind_ok, Res.pure_eq] at h; cases h; exact ⟨rfl, rfl⟩
+  | err e => exact e.elim
+  | panic s => rw [hd] at h; cases h
+
+theorem isDisconnected_congr {c c' : Conn} (h : c'.status = c.status) : c'.isDisconnected = c.isDisconnected := by
+  unfold Conn.isDisconnected; rw [h]
+
+theorem step_recv_eq {r r' : RecvRel} {o : List Bytes} {m : Option Bytes} (h : r.receive = .ok (r', m)) :
+    DataPath.step ⟨r, o, false⟩ .recv = ⟨r', o ++ m.toList, false⟩ := by
+  unfold DataPath.step
+  rw [if_neg (by simp)]
+  dsimp only
+  rw [h]
+  cases m <;> simp
+
+theorem step_slice_eq {r r' : RecvRel} {o : List Bytes} {sl : Slice} (h : r.processSlice sl = .ok r') :
+    DataPath.step ⟨r, o, false⟩ (.slice sl) = ⟨r', o, false⟩ := by
+  unfold DataPath.step
+  rw [if_neg (by simp)]
+  dsimp only
+  rw [h]
+
+/-- replacing one receive channel by its image under an invariant-preserving transition -/
+theorem recv_update {K : Nat → Option Bool} {sub obt obt' : Nat → List Bytes} {R : SMap RecvRel} {ch0 : Nat}
+    {r0 r1 : RecvRel}
+    (hold : (∀ ch, (SMap.find? R ch).map (·.ordered) = K ch) ∧
+      ∀ ch r, SMap.find? R ch = some r → ChanBS (sub ch) ⟨r, obt ch, false⟩)
+    (hf : SMap.find? R ch0 = some r0) (hnew : ChanBS (sub ch0) ⟨r1, obt' ch0, false⟩) (hord : r1.ordered = r0.ordered)
+    (hoth : ∀ ch, ch ≠ ch0 → obt' ch = obt ch) :
+    (∀ ch, (SMap.find? (SMap.insert R ch0 r1) ch).map (·.ordered) = K ch) ∧
+      ∀ ch r, SMap.find? (SMap.insert R ch0 r1) ch = some r → ChanBS (sub ch) ⟨r, obt' ch, false⟩ := by
+  constructor
+  · intro ch
+    rw [SMap.find?_insert]
+    split
+    · rename_i e; subst e
+      rw [← hold.1 ch0, hf]; simp [hord]
+    · exact hold.1 ch
+  · intro ch r hr
+    rw [SMap.find?_insert] at hr
+    split at hr
+    · rename_i e; subst e; cases hr; exact hnew
+    · rename_i e
+      rw [hoth ch (fun e' => e e'.symm)]
+      exact hold.2 ch r hr
+
+/-- the per-channel property layer 2 threads through the flush -/
+def P2 (sub : Nat → List Bytes) (ch : Nat) (s : SendRel) : Prop :=
+  (ChanG (sub ch) s ∧ s.Inv ∧ s.ch = ch) ∧ Stat (sub ch) ch
+
+theorem p2_getPackets (sub : Nat → List Bytes) (now : Nat) (ch : Nat) (s : SendRel) (seq avail : Nat)
+    (h : P2 sub ch s) (hseq : (s.getPackets seq avail now).2.2.1 ≤ Varint.MAX + 1) :
+    P2 sub ch (s.getPackets seq avail now).1 ∧ ∀ p ∈ (s.getPackets seq avail now).2.1, isRel p = true → p.WF := by
+  obtain ⟨⟨hg, hi, hc⟩, hst⟩ := h
+  obtain ⟨i', st, -⟩ := SI.SendRel.getPackets_spec hi seq avail now _ _ _ _ rfl
+  exact ⟨⟨⟨chanG_getPackets hg hi seq avail now, i', st.1.trans hc⟩, hst⟩,
+    fun p hp _ => getPackets_pktWF hg hi hc hst seq avail now hseq p hp⟩
+
+/-- what B decodes from a datagram of `outA` is genuine -/
+theorem decoded_genuine {cfg : Cfg} {s : Sys} {pkA : List Packet} (h1 : Inv1 cfg s pkA) (h2 : Inv2 cfg s pkA)
+    {k : Nat} {bytes : Bytes} (hb : s.outA[k]? = some bytes) {p' : Packet} (hd : Packet.fromBytes bytes = .ok p') :
+    PktGen s.submitted p' ∧ ∃ p, pkA[k]? = some p ∧ p.enc = .ok bytes ∧ p'.sequence = p.sequence ∧ (isRel p = true → p' = p) := by
+  obtain ⟨p, hp, he⟩ := enc_lookup h1.encA hb
+  have hmem : p ∈ pkA := List.mem_of_getElem? hp
+  obtain ⟨hsq, htag⟩ := fromBytes_of_enc he hd
+  have hrel := isRel_of_tag htag
+  cases hr : isRel p with
+  | true =>
+    have : p' = p := fromBytes_of_enc_wf (h2.wfA p hmem hr) he hd
+    subst this
+    exact ⟨h1.genA _ hmem, _, hp, he, rfl, fun _ => rfl⟩
+  | false =>
+    rw [hr] at hrel
+    exact ⟨pktGen_of_not_rel hrel, p, hp, he, hsq, fun h => by cases h⟩
+
+theorem inv2_step {cfg : Cfg} {s s' : Sys} {pkA : List Packet} {op : SysOp} (h1 : Inv1 cfg s pkA) (h2 : Inv2 cfg s pkA)
+    (hs : s.step op = some s') (hc : CountersOK cfg s') : Inv2 cfg s' (nextPk s op pkA) := by
+  cases op with
+  | sendA ch m =>
+    simp only [Sys.step] at hs
+    split at hs
+    · rename_i a' hm
+      cases hs
+      cases hacc : accepted s.a a' ch with
+      | false =>
+        simp only [hacc, Bool.false_eq_true, ↓reduceIte]
+        exact ⟨h2.wfA, h2.recvB, h2.concl⟩
+      | true =>
+        simp only [↓reduceIte]
+        refine ⟨h2.wfA, ?_, ?_⟩
+        · intro hd
+          obtain ⟨f1, f2⟩ := h2.recvB hd
+          refine ⟨f1, ?_⟩
+          intro c r hr
+          dsimp only
+          unfold push
+          split
+          · rename_i e; subst e; exact chanBS_mono m (f2 c r hr)
+          · exact f2 c r hr
+        · intro c
+          dsimp only
+          unfold push
+          split
+          · rename_i e; subst e; exact concl_mono m (h2.concl c)
+          · exact h2.concl c
+    · cases hs
+  | recvB ch =>
+    simp only [Sys.step] at hs
+    have key : ∀ (b' : Conn) (mo : Option Bytes), s.b.receiveMessage ch = .ok (b', mo) →
+        ∀ obt' : Nat → List Bytes, obt' ch = s.obtained ch ++ mo.toList → (∀ c, c ≠ ch → obt' c = s.obtained c) →
+        Inv2 cfg { s with b := b', obtained := obt' } pkA := by
+      intro b' mo hm obt' ho1 ho2
+      rcases receiveMessage_cases hm with ⟨hd, rfl, rfl⟩ | ⟨hd, r, r', hf, hrecv, rfl⟩ | ⟨hd, hf, hrr, hst⟩
+      · have hobt : obt' = s.obtained := by
+          funext c
+          by_cases e : c = ch
+          · subst e; rw [ho1]; simp
+          · exact ho2 c e
+        rw [hobt]
+        exact ⟨h2.wfA, h2.recvB, h2.concl⟩
+      · obtain ⟨f1, f2⟩ := h2.recvB hd
+        have hstep := step_recv_eq (o := s.obtained ch) hrecv
+        have hnew : ChanBS (s.submitted ch) ⟨r', obt' ch, false⟩ := by
+          rw [ho1, ← hstep]
+          exact chanBS_step _ _ _ (f2 ch r hf) trivial
+        have hord : r'.ordered = r.ordered := by
+          have := step_ordered (s.submitted ch) ⟨r, s.obtained ch, false⟩ .recv (f2 ch r hf) trivial
+          rw [hstep] at this; exact this
+        have hupd := recv_update (K := RelKind cfg) (obt' := obt') ⟨f1, f2⟩ hf hnew hord ho2
+        refine ⟨h2.wfA, fun _ => hupd, ?_⟩
+        intro c
+        dsimp only
+        by_cases e : c = ch
+        · subst e
+          have := concl_of_chanBS hnew
+          rw [hord, ← (show (SMap.find? s.b.recvRel c).map (·.ordered) = some r.ordered by rw [hf]; rfl), f1 c] at this
+          exact this
+        · rw [ho2 c e]; exact h2.concl c
+      · have hdd : b'.isDisconnected = s.b.isDisconnected := isDisconnected_congr hst
+        obtain ⟨f1, f2⟩ := h2.recvB hd
+        have hk : RelKind cfg ch = none := by rw [← f1 ch, hf]; rfl
+        refine ⟨h2.wfA, ?_, ?_⟩
+        · intro _
+          dsimp only
+          rw [hrr]
+          refine ⟨f1, ?_⟩
+          intro c r hr
+          have e : c ≠ ch := by intro e; subst e; rw [hf] at hr; cases hr
+          rw [ho2 c e]; exact f2 c r hr
+        · intro c
+          dsimp only
+          by_cases e : c = ch
+          · subst e; rw [hk]; trivial
+          · rw [ho2 c e]; exact h2.concl c
+    split at hs
+    · rename_i b' m hm
+      cases hs
+      exact key b' (some m) hm _ (push_same _ _ _) (fun c e => push_other _ _ e)
+    · rename_i b' hm
+      cases hs
+      exact key b' none hm _ (by simp) (fun _ _ => rfl)
+    · cases hs
+  | updA dt =>
+    simp only [Sys.step] at hs
+    split at hs
+    · cases hs; exact ⟨h2.wfA, h2.recvB, h2.concl⟩
+    · cases hs
+  | updB dt =>
+    simp only [Sys.step] at hs
+    split at hs
+    · rename_i b' hm
+      cases hs
+      obtain ⟨e1, e2⟩ := update_recv hm
+      refine ⟨h2.wfA, ?_, h2.concl⟩
+      intro hd
+      dsimp only at hd ⊢
+      rw [isDisconnected_congr e2] at hd
+      rw [e1]; exact h2.recvB hd
+    · cases hs
+  | flushA =>
+    simp only [Sys.step] at hs
+    split at hs
+    · rename_i a' bs hm
+      cases hs
+      refine ⟨?_, h2.recvB, h2.concl⟩
+      obtain ⟨-, g2⟩ := flush_pres (P2 s.submitted) (fun p => isRel p = true → p.WF) (Varint.MAX + 1)
+        (fun ch sA seq avail hp hseq => p2_getPackets s.submitted s.a.now ch sA seq avail hp hseq)
+        (fun sU seq avail p hp hr => by rw [unrel_not_rel sU seq avail p hp] at hr; cases hr)
+        (fun _ _ hr => by cases hr) hm hc.seq
+        (fun ch sA hf => by
+          obtain ⟨hg, c, hcm, hce⟩ := h1.chanA ch sA hf
+          obtain ⟨hi, hch⟩ := h1.invA.1.chans ch sA hf
+          exact ⟨⟨hg, hi, hch⟩, ⟨by rw [← hce]; exact hc.chan c hcm, hc.ids ch, hc.lens ch⟩⟩)
+      intro p hp
+      simp only [nextPk, List.mem_append] at hp
+      rcases hp with hp | hp
+      · exact h2.wfA p hp
+      · exact g2 p hp
+    · cases hs
+  | flushB =>
+    simp only [Sys.step] at hs
+    split at hs
+    · rename_i b' bs hm
+      cases hs
+      obtain ⟨-, -, -, -, f5, -, f7⟩ := flush_facts h1.invB.1 hm
+      refine ⟨h2.wfA, ?_, h2.concl⟩
+      intro hd
+      dsimp only at hd ⊢
+      rw [f5]; exact h2.recvB (f7 hd)
+    · cases hs
+  | deliverToB k =>
+    simp only [Sys.step] at hs
+    split at hs
+    · cases hs
+    · rename_i bytes hb
+      split at hs
+      · rename_i b' hm
+        cases hs
+        refine ⟨h2.wfA, ?_, h2.concl⟩
+        intro hd'
+        dsimp only at hd' ⊢
+        rcases processPacket_recv h1.invB.1 hm with hdis | ⟨hd, p', hdec, hmatch⟩
+        · rw [hdis] at hd'; cases hd'
+        · obtain ⟨f1, f2⟩ := h2.recvB hd
+          obtain ⟨hgen, -⟩ := decoded_genuine h1 h2 hb hdec
+          cases p' with
+          | smallReliable sq ch msgs =>
+            obtain ⟨r, r', hf, hloop, hrr⟩ := hmatch
+            rw [hrr]
+            have hops := (DataPath.relMsgLoop_as_ops msgs r (s.obtained ch)).1 r' hloop
+            have hg : ∀ op ∈ msgs.map (fun p => DataPath.RecvOp.msg p.1 p.2), DataPath.Genuine (s.submitted ch) op := by
+              intro op hop
+              obtain ⟨x, hx, rfl⟩ := List.mem_map.mp hop
+              exact hgen x hx
+            have hnew : ChanBS (s.submitted ch) ⟨r', s.obtained ch, false⟩ := by
+              rw [← hops]; exact chanBS_foldl _ _ _ (f2 ch r hf) hg
+            have hord : r'.ordered = r.ordered := by
+              have := foldl_ordered (s.submitted ch) _ _ (f2 ch r hf) hg
+              rw [hops] at this; exact this
+            exact recv_update (K := RelKind cfg) (obt' := s.obtained) ⟨f1, f2⟩ hf hnew hord (fun _ _ => rfl)
+          | reliableSlice sq ch sl =>
+            obtain ⟨r, r', hf, hps, hrr⟩ := hmatch
+            rw [hrr]
+            have hstep := step_slice_eq (o := s.obtained ch) hps
+            have hnew : ChanBS (s.submitted ch) ⟨r', s.obtained ch, false⟩ := by
+              rw [← hstep]; exact chanBS_step _ _ _ (f2 ch r hf) hgen
+            have hord : r'.ordered = r.ordered := by
+              have := step_ordered (s.submitted ch) ⟨r, s.obtained ch, false⟩ (.slice sl) (f2 ch r hf) hgen
+              rw [hstep] at this; exact this
+            exact recv_update (K := RelKind cfg) (obt' := s.obtained) ⟨f1, f2⟩ hf hnew hord (fun _ _ => rfl)
+          | smallUnreliable sq ch msgs => dsimp only at hmatch; rw [hmatch]; exact ⟨f1, f2⟩
+          | unreliableSlice sq ch sl => dsimp only at hmatch; rw [hmatch]; exact ⟨f1, f2⟩
+          | ack sq ranges => dsimp only at hmatch; rw [hmatch]; exact ⟨f1, f2⟩
+      · cases hs
+  | deliverToA k =>
+    simp only [Sys.step] at hs
+    split at hs
+    · cases hs
+    · split at hs
+      · cases hs; exact ⟨h2.wfA, h2.recvB, h2.concl⟩
+      · cases hs
+
 end RenetVerif.System
